@@ -143,6 +143,9 @@ def values():
         ("b_empty", b""), ("b_bin", b"\x00\xff\r\n\x1a"), ("b_big", big.encode() + b"\x00"), ("ba", bytearray(b"\x01\x02")),
         ("none", None), ("int", 42), ("dict", {"a": [1, 2], "b": None}), ("obj", Obj("o")),
         ("df", pd.DataFrame({"x": [1, 2], "y": ["a", "b"]})), ("t", T(7)), ("t2", T("s")),
+        # values their dedicated codec cannot write (a file name decoded with surrogateescape; a column of mixed types): the
+        # store may refuse them, loudly - what it accepts must read back equal
+        ("s_surr", "caf\udce9.txt"), ("df_mixed", pd.DataFrame({"x": [1, "a"]})),
         ("t_sub", TS(1, "more")), ("str_enum", Mode.FAST), ("bytes_sub", MyBytes(b"raw")), ("dict_sub", MyDict(a=1)),
     ])
 
@@ -247,6 +250,11 @@ def apply(s, op):
         if isinstance(v, T) and not any(c in s.registered for c in ("t1", "t2", "tc")) and False:
             return probs
         r = call(lambda: s.store.store_blob(_h(name), v, None))
+        if r[0] != "ok" and name in MAY_REFUSE:
+            hb = call(lambda: s.store.has_blob(_h(name)))
+            if hb != ("ok", False) and name not in s.written:
+                bad(f"refused_but_present|{type(v).__name__}", f"store_blob raised {r} but has_blob says {hb}")
+            return probs
         if r[0] != "ok":
             bad(f"store|{type(v).__name__}|{r[0]}:{r[1]}", f"store_blob failed: {r}")
             return probs
@@ -254,7 +262,7 @@ def apply(s, op):
         s.written[name] = ref
         raw = _blob_bytes(s, name)
         if type(v) is str and ref in ("local.string",):
-            if raw != v.encode("utf-8"):
+            if raw != v.encode("utf-8", "surrogateescape"):
                 bad("verbatim|str", f"blob file of {name} is not the UTF-8 text: {raw[:20]!r}...")
         if type(v) in (bytes, bytearray) and ref in ("local.bytes",):
             if raw != bytes(v):
@@ -265,7 +273,7 @@ def apply(s, op):
         if type(v) in (str, bytes) and s.kind == "local" and ref in ("local.string", "local.bytes"):
             rs = call(lambda: s.store.sync_paths(OrderedDict([("/out/" + name, _h(name))])))
             fp = os.path.join(s.root, "d", "out", name)
-            want = v.encode("utf-8") if isinstance(v, str) else bytes(v)
+            want = v.encode("utf-8", "surrogateescape") if isinstance(v, str) else bytes(v)
             if rs[0] != "ok" or not os.path.exists(fp) or open(fp, "rb").read() != want:
                 bad(f"verbatim|datadir|{type(v).__name__}", f"file under the data dir for {name} differs / missing ({rs})")
     elif op[0] == "fetch":
@@ -299,7 +307,9 @@ def key(s):
     return (tuple(sorted(s.written.items(), key=str)), tuple(s.registered), phys)
 
 
+MAY_REFUSE = {"s_surr", "df_mixed"}
 WINDOWS = [
+    ["s_surr", "df_mixed", "s_ascii"],
     ["s_ascii", "t", "b_bin"], ["s_empty", "none", "t2"], ["s_uni", "dict", "df"], ["s_big", "ba", "int"],
     ["s_nl", "b_empty", "obj"], ["s_anl", "s_sp", "b_big"], ["s_crlf", "t", "s_ascii"],
     ["t_sub", "str_enum", "t"], ["bytes_sub", "dict_sub", "s_ascii"],
